@@ -1,4 +1,5 @@
 import GqlgenVerif.Lemmas.Defer
+import GqlgenVerif.Lemmas.DeferSpec
 /-!
 # C13 — `@defer` changes delivery, not content
 
@@ -19,8 +20,12 @@ Proved (all field lists, oracles, paths):
 F13a: a group nested in another group's subtree can be delivered before the group that delivers its
 object; F13b: a group whose object was removed from the initial payload by null propagation from a
 sibling is still delivered (its path cannot be found). The merge theorem is stated for one object level
-over the Spec; the multi-level statement is evaluated on every generated case by `lib/defermerge.py`
-on the implementation's own payloads (not a theorem).
+over the Spec; the multi-level statement is `DeferSpec.check` (`Model/DeferSpec.lean`: the client's merge in
+arrival order, equality with the plain result modulo the cut, errors, each group once, `hasNext`), an
+executable Lean definition that the driver evaluates on every generated case - on the implementation's own
+payload sequence and on the defer model's - against the implementation's plain run; here it is shown to
+accept what it must (`statement_accepts_plain_response`) and to reject concrete wrong sequences
+(`statement_rejects_*`). That the defer model's sequence satisfies `check` for every plan is not a theorem.
 -/
 namespace GqlgenVerif.C13
 open GqlgenVerif D Spec
@@ -125,5 +130,57 @@ example : isDeferredField (({ alias := "x", name := "x", deferred := some "L" } 
   decide
 example : ∃ d : Deliveries, d.started 0 = 2 ∧ d.started 2 = 2 :=
   ⟨⟨fun _ => 2, fun _ => Nat.le_refl _, fun _ _ => rfl⟩, rfl, rfl⟩
+
+/-! ### the statement itself (`DeferSpec.check`) -/
+open DeferSpec in
+/-- **No `@defer`, nothing to object to**: a response that is the plain result, as one payload, violates no
+    clause - for every result tree and error list. -/
+theorem statement_accepts_plain_response (t : Out) (errs : List (String × String)) :
+    DeferSpec.check [{ path := [], label := "", data := none, root := t, errs := errs, hasNext := none }] t errs = [] := by
+  simp [DeferSpec.check, List.foldl, DeferSpec.hasNextClauses, eqModCut_refl, notIn_self]
+
+/-- `{ t { a ... @defer { b } } }`: initial `{"t":{"a":1,"b":null}}` then the group `{"b":2}` at `t` -/
+def okSeq : List DeferSpec.WP :=
+  [{ path := [], label := "", data := some [("t", .obj [("a", .leaf "1"), ("b", .null)])],
+     root := .obj [("t", .obj [("a", .leaf "1"), ("b", .null)])], errs := [], hasNext := some true },
+   { path := [.key "t"], label := "", data := some [("b", .leaf "2")], errs := [], hasNext := some false }]
+
+def plainT : Out := .obj [("t", .obj [("a", .leaf "1"), ("b", .leaf "2")])]
+
+/-- the statement accepts a correct incremental delivery -/
+theorem statement_accepts_witness : DeferSpec.check okSeq plainT [] = [] := by decide
+
+/-- ... and rejects: a wrong deferred value, a missing last `hasNext: false`, a group delivered twice, an error
+    the plain run does not report, a group whose object is not there -/
+theorem statement_rejects_wrong_value :
+    DeferSpec.check okSeq (.obj [("t", .obj [("a", .leaf "1"), ("b", .leaf "3")])]) [] =
+      ["merged-data-differs-from-plain"] := by decide
+
+theorem statement_rejects_hasNext :
+    DeferSpec.check (okSeq.map fun p => { p with hasNext := some true }) plainT [] = ["hasNext-wrong-at-1"] := by decide
+
+theorem statement_rejects_duplicate_group :
+    (DeferSpec.check (okSeq ++ [okSeq[1]!]) plainT []).contains "group-delivered-twice:t|" = true := by decide
+
+theorem statement_rejects_new_error :
+    DeferSpec.check (okSeq.map fun p => { p with errs := if p.path == [] then [] else [("t/b", "boom")] }) plainT [] =
+      ["error-not-in-plain:t/b :: boom"] := by decide
+
+theorem statement_rejects_unfindable_path :
+    DeferSpec.check (okSeq.map fun p => { p with path := if p.path == [] then [] else [.key "u"] }) plainT [] =
+      ["orphan-payload-object-nulled:u|", "merged-data-differs-from-plain"] := by decide
+
+/-- the cut: a failed group (`data: null`) under a nullable object leaves its placeholders null while the plain
+    run nulled the object - accepted; the same difference without a failed group there is not -/
+theorem statement_cut_witness :
+    DeferSpec.check
+      [{ path := [], label := "", data := some [("t", .obj [("a", .leaf "1"), ("b", .null)])],
+         root := .obj [("t", .obj [("a", .leaf "1"), ("b", .null)])], errs := [("t/b", "E")], hasNext := some true },
+       { path := [.key "t"], label := "", data := none, errs := [], hasNext := some false }]
+      (.obj [("t", .null)]) [("t/b", "E")] = [] ∧
+    DeferSpec.check
+      [{ path := [], label := "", data := some [("t", .obj [("a", .leaf "1"), ("b", .null)])],
+         root := .obj [("t", .obj [("a", .leaf "1"), ("b", .null)])], errs := [("t/b", "E")], hasNext := none }]
+      (.obj [("t", .null)]) [("t/b", "E")] = ["merged-data-differs-from-plain"] := by decide
 
 end GqlgenVerif.C13
